@@ -63,6 +63,10 @@ class Contract:
         # is NOT an obligation of its call sites: a global invariant of a data structure (every operation is entered
         # with it and proved to re-establish it) or a scoping restriction of the proof; reported as an assumption
         self.entry = kw.pop("entry", None)
+        # property id -> list of obligation-name fragments: the function is also verified for that property, but only
+        # the obligations whose name contains one of the fragments are counted and reported under it (a call-site
+        # precondition that carries another property through this function)
+        self.partial_props = kw.pop("partial_props", {})
         if kw:
             raise TypeError(f"unknown contract fields {list(kw)}")
 
